@@ -196,16 +196,21 @@ def find_peaks_cases(draw):
     ny, nx = shape
     data, pal = draw(palette_image(shape, palette=draw(st.sampled_from(
         [[-2.0, -1.0, 0.0, 1.0, 2.0, 3.0], [0.0, 1.0, 5.0], [-3.0, -1.0],
-         [1.5, 2.5, 2.75, 7.0]])), nonfinite=False))
+         [1.5, 2.5, 2.75, 7.0],
+         # low-contrast structure on a large pedestal / very small units
+         [5000.0, 5000.01, 5000.03, 4999.98],
+         [1e-12, 2e-12, 3e-12, -1e-12]])), nonfinite=False))
     if draw(st.integers(0, 2)) == 0:
         for _ in range(draw(st.integers(1, 2))):
             data[draw(st.integers(0, ny - 1))][draw(st.integers(0, nx - 1))] = float('nan')
     case = {'data': data, 'thr': None, 'thr2d': None}
     if draw(st.integers(0, 3)) == 0:
         t2, _ = draw(palette_image(shape, palette=pal, nonfinite=False))
-        case['thr2d'] = [[v - 0.5 for v in row] for row in t2]
+        case['thr2d'] = [[v - 0.1 * (max(pal) - min(pal)) for v in row] for row in t2]
     else:
-        case['thr'] = draw(st.sampled_from(pal)) - draw(st.sampled_from([0.0, 0.5, 10.0]))
+        spread = max(pal) - min(pal)
+        case['thr'] = draw(st.sampled_from(pal)) - draw(st.sampled_from(
+            [0.0, 0.5 * spread / 5, 10.0 * spread]))
     if draw(st.booleans()):
         fy, fx = draw(st.sampled_from([1, 3, 5])), draw(st.sampled_from([1, 3, 5]))
         fpm = draw(st.lists(st.booleans(), min_size=fy * fx, max_size=fy * fx))
@@ -228,6 +233,10 @@ def find_peaks_cases(draw):
 # star finders
 
 def star_image(sc):
+    return _star_image(sc) * sc.get('scale', 1.0)
+
+
+def _star_image(sc):
     ny, nx = sc['shape']
     img = np.zeros((ny, nx))
     for (x, y, a, s, q) in sc['stars']:
@@ -292,9 +301,17 @@ def _same_rows(a, b):
 def check_star_finder(case, ctx):
     from scipy.ndimage import convolve
     from photutils.utils.exceptions import NoDetectionsWarning
-    cfg = case['config']
+    cfg = dict(case['config'])
     kind = cfg['kind']
     img = star_image(case['scene'])
+    scale = case['scene'].get('scale', 1.0)
+    if scale != 1.0:
+        # the same scene in very small units: data, threshold and peakmax
+        # scale together
+        cfg['threshold'] = cfg['threshold'] * scale
+        if cfg['peakmax'] is not None:
+            cfg['peakmax'] = cfg['peakmax'] * scale
+        ctx.event('tiny_units')
     mask = None
     if case['mask']:
         mask = np.zeros(img.shape, bool)
@@ -421,6 +438,23 @@ def _after_select(case, ctx, cfg, kind, f, img, mask, t, nwarn, rows_open, cols,
                             f'{kind}: source at ({x:.3f},{y:.3f}) is not within '
                             f'the kernel of any local maximum of the convolved '
                             f'image above the effective threshold', kind=kind)
+    # ---- completeness: a candidate peak without a row must be one whose
+    #      measurement is non-finite (re-measured through xycoords)
+    lonely = [p for p in cand_set
+              if not any(abs(r[0] - p[0]) <= K.xradius + 0.5
+                         and abs(r[1] - p[1]) <= K.yradius + 0.5 for r in rows_open)]
+    for p in sorted(lonely)[:3]:
+        with warnings.catch_warnings():
+            warnings.simplefilter('ignore')
+            t1 = make_finder(cfg, xycoords=np.array([p], float), **OPEN)(
+                img.copy(), mask=mask)
+        if t1 is not None and len(t1) == 1:
+            raise Violation('candidate_dropped',
+                            f'{kind}: the local maximum of the convolved image at '
+                            f'{p} is above the effective threshold and measures '
+                            f'finite values, but the finder did not report it '
+                            f'({len(rows_open)} rows, {len(cand_set)} candidates)',
+                            kind=kind)
     # ---- xycoords = the detected peaks reproduces the table
     if cand and kind in ('dao', 'iraf'):
         with warnings.catch_warnings():
@@ -496,6 +530,7 @@ def star_cases(draw):
                       'noise': draw(st.sampled_from([0.3, 1.0])),
                       'noise_seed': draw(st.integers(0, 10**6)),
                       'pedestal': draw(st.sampled_from([0.0, 0.0, -10.0, 5.0])),
+                      'scale': draw(st.sampled_from([1.0, 1.0, 1.0, 2.0 ** -40])),
                       'hot': [[draw(st.integers(0, 50)), draw(st.integers(0, 50)),
                                draw(st.sampled_from([80.0, 300.0]))]
                               for _ in range(draw(st.integers(0, 2)))]},
